@@ -387,15 +387,25 @@ func init() {
 			// 150000 executions stops there and the check reports exhaustive:false
 			shards, maxExecs = 4, 150000
 		}
-		schedmc.RunFamily(c, "C08", bound, shards, maxExecs)
-		// the seconds-long wait: default schedule only in quick, one preemption in thorough
+		// the seconds-long wait first (default schedule only in quick, one preemption in thorough),
+		// so that the main family cannot use up its time budget
 		lb := 0
 		if !c.Quick() {
 			lb = 1
 		}
 		schedmc.RunFamily(c, "C08long", lb, shards, maxExecs)
-		c.Cov["long_wait_part"] = fmt.Sprintf("a Lock that waits 4 s for its predecessor (5 s deadline) through owner, non-owner and cluster-client paths, preemption bound %d; the clients' 3 s read timeout is modelled on the virtual clock", lb)
-		c.Cov["preemption_bound_completed"] = bound
+		longOK := c.Cov["exhaustive"] == true
+		c.Cov["long_wait_part"] = fmt.Sprintf("a Lock that waits 4 s for its predecessor (5 s deadline) through owner, non-owner and cluster-client paths, preemption bound %d (completed: %v); the clients' 3 s read timeout is modelled on the virtual clock", lb, longOK)
+		delete(c.Cov, "exhaustive")
+		if c.Tier == "thorough" {
+			// bound 2 for every program first (no cap), then bound 3 as far as the budget goes
+			schedmc.RunFamilyIter(c, "C08", 2, bound, shards, maxExecs)
+		} else {
+			schedmc.RunFamily(c, "C08", bound, shards, maxExecs)
+		}
+		if !longOK {
+			c.Cov["exhaustive"] = false
+		}
 		c.Cov["traces_validated_against_impl"] = 0
 		c.Assumef("time is the virtual clock: it advances 1ns per time.Now() and otherwise only by explicit scheduler transitions; ttl resolution is 1ms and the oracle allows that much")
 	}})
